@@ -107,6 +107,13 @@ def run(ck):
         A2 = ["w " + hx(x), "w " + hx(y), "w " + hx(x), "gmul 1 0 0 0 0 0 - $0 $1 0 0", "gadd 0 1 1 0 0 0 - $3 $0 0 0", "rbits 16 $0"]
         B2 = A2[:4] + ["gadd 0 1 1 0 0 0 - $3 $2 0 0", "rbits 16 $2"]
         add_case("different witness allocation with equal values (satisfying)", A2, B2)
+    # full domains whose wire columns are periodic (the four rows of Composer::initialized() repeated): every wire
+    # polynomial then has degree far below n-1 (the interpolant loses its top coefficients)
+    init_rows = [("0 " + hx(R - 1) + " 0 0 0 0 0 1 0 0 0 0", "0", "0 0 0 0"), ("0 " + hx(R - 1) + " 0 0 0 1 0 1 0 0 0 0", "0", "1 0 0 0"),
+                 ("1 2 3 4 1 4 0 1 0 0 0 0", "0", "2 4 5 3"), ("1 1 1 1 0 7f 0 1 0 0 0 0", "0", "5 2 4 0")]
+    for reps in ((1, 3) if quick else (1, 3, 7, 15, 63)):
+        L = [f"raw {sel} {pi} {wires}" for _ in range(reps) for (sel, pi, wires) in init_rows]
+        add_case(f"full domain of {4 * (reps + 1)} rows with period-4 wire columns (low-degree interpolants)", L, L)
     # every small size, starting with the gate-less circuit (4 constraints)
     for k in (range(0, 14) if quick else range(0, 40)):
         L = ["w " + hx(rng.small()), "w " + hx(rng.small())] + ["gmul 1 0 0 0 0 3 - $0 $1 0 0"] * k
@@ -207,7 +214,7 @@ def run(ck):
             ck.violation(f"prover returned a proof that fails verification ({tag}): {res[c3]}",
                          {"failing_input_found": True, "compiled_circuit": S.circuits[a], "instance": S.circuits[b]}, key="returned-bad-proof")
     return ck.finish(level="proof",
-        rule="layouts: random gadget mixes, one circuit of more than 2^12 gates (default pool and pool of 3), raw rows with random selector combinations (incl. 16-row full domains whose last row reads row 0), rows carrying a (zero / non-zero) public input with the arithmetic selector on or off, gadget ending at the domain end; instances: satisfying, one witness overridden, different wiring breaking a compiled copy constraint with every row satisfied, different wiring with equal values (still satisfying), wrong size; verdict of the extracted row evaluator on (compiled selectors, instance wires) + copy-class check vs Prover::prove; every returned proof is verified; the cycles of the compiled sigma (read back from the prover bytes) equal the witness classes of the layout",
+        rule="layouts: random gadget mixes, one circuit of more than 2^12 gates (default pool and pool of 3), raw rows with random selector combinations (incl. 16-row full domains whose last row reads row 0), rows carrying a (zero / non-zero) public input with the arithmetic selector on or off, gadget ending at the domain end, full domains with periodic wire columns (interpolants of low degree); instances: satisfying, one witness overridden, different wiring breaking a compiled copy constraint with every row satisfied, different wiring with equal values (still satisfying), wrong size; verdict of the extracted row evaluator on (compiled selectors, instance wires) + copy-class check vs Prover::prove; every returned proof is verified; the cycles of the compiled sigma (read back from the prover bytes) equal the witness classes of the layout",
         assumptions=["the degree test is exact (C05_degree_test) given that the 8n coset points are distinct and off the domain (checked by the kernels tie of C19, not proved for every n) and that the numerator has fewer than 8n coefficients",
                      "challenges avoid the bounded bad sets of the separation theorem"],
         checker_cmd=proofgate.CHECKER_CMD, trusted_base=proofgate.TRUSTED)
